@@ -18,6 +18,19 @@ from .expr import real_of
 US = 1000000
 
 
+def _mentions_var(t, v):
+    todo, seen = [t], set()
+    while todo:
+        x = todo.pop()
+        if x.get_id() in seen:
+            continue
+        seen.add(x.get_id())
+        if x.eq(v):
+            return True
+        todo.extend(x.children())
+    return False
+
+
 def elem_sort_name(ty):
     return str(sort_of(ty)).replace(" ", "_")
 
@@ -50,13 +63,23 @@ class BuiltinMixin:
         self.log_write("List.len")
         return Val(ListT(ety), ref)
 
-    def def_array(self, st, var, body, idx_sort=None):
+    def def_array(self, st, var, body, idx_sort=None, also=()):
         """Array defined pointwise: a fresh array constant with the axiom  forall var. a[var] == body,
         triggered on a[var] (friendlier to e-matching than an SMT lambda)."""
         a = fresh("arr", z3.ArraySort(var.sort(), body.sort()))
         v2 = fresh("dv", var.sort())
         b2 = z3.substitute(body, (var, v2))
-        ax = z3.ForAll([v2], z3.Select(a, v2) == b2, patterns=[z3.Select(a, v2)])
+        pats = [z3.Select(a, v2)]
+        for t in also:
+            # alternative triggers: the source term the element is computed from (so that a fact about the
+            # source element reaches the defined one without the defined term occurring first)
+            if t is not None and z3.is_app(t) and not z3.is_const(t) and t.decl().kind() == z3.Z3_OP_SELECT and var.eq(t.arg(1)) \
+                    and not _mentions_var(t.arg(0), var):
+                pats.append(z3.substitute(t, (var, v2)))
+        try:
+            ax = z3.ForAll([v2], z3.Select(a, v2) == b2, patterns=pats)
+        except z3.Z3Exception:
+            ax = z3.ForAll([v2], z3.Select(a, v2) == b2, patterns=pats[:1])
         if st.spec:
             # a definition introduced while evaluating a specification: background fact for later obligations
             self.axioms.append(ax)
@@ -305,7 +328,10 @@ class BuiltinMixin:
         want = st.ghost.get("__dict_vty__")
         if st.spec:
             # a dict literal inside a specification is a value (no allocation in the heap)
-            vty = want or (self.join_types([v.ty for v in vals]) if vals else JV)
+            try:
+                vty = want or (self.join_types([v.ty for v in vals]) if vals else JV)
+            except Unsupported:
+                vty = JV
             os_ = opt_sort(sort_of(vty))
             m = self.empty_map(vty)
             for k, v in zip(keys, vals):
@@ -313,7 +339,10 @@ class BuiltinMixin:
             return Val(DictT(vty), z3.IntVal(0), frozen=m)
         if not vals:
             return self.new_dict(want or JV, st)
-        vty = want or self.join_types([v.ty for v in vals])
+        try:
+            vty = want or self.join_types([v.ty for v in vals])
+        except Unsupported:
+            vty = JV          # values of different types: each is embedded as an opaque JSON value
         os_ = opt_sort(sort_of(vty))
         m = self.empty_map(vty)
         for k, v in zip(keys, vals):
@@ -333,6 +362,14 @@ class BuiltinMixin:
             j = jv_of_str(v.t)
             st.assume(z3.And(jv_is_str(j), jv_str(j) == v.t, z3.Not(jv_is_list(j)), z3.Not(jv_is_dict(j))))
             return Val(JV, j)
+        if v.ty == NONE:
+            st.assume(z3.And(z3.Not(jv_is_str(jv_null)), z3.Not(jv_is_list(jv_null)), z3.Not(jv_is_dict(jv_null))))
+            return Val(JV, jv_null)
+        if v.ty.name == "Opt":
+            # None embeds as the one JSON null, anything else as its own embedding
+            inner = self.to_jv(self._inner(v), st)
+            none = self.to_jv(NONE_VAL, st)
+            return Val(JV, z3.If(self.is_none(v, st), none.t, inner.t))
         f = z3.Function("jv_of_" + elem_sort_name(v.ty), sort_of(v.ty), JVSort)
         j = f(to_sort_term(v, v.ty))
         if v.ty.name == "List":
@@ -726,6 +763,8 @@ class BuiltinMixin:
 
     def x_bi_mset(self, args, kw, st, node):
         m, i, v = args
+        if i.ty.name == "Opt":
+            i = Val(i.ty.args[0], opt_of(i.ty).val(i.t))     # ghost index through an Optional[int]
         return Val(Ty("IntMap"), z3.Store(m.t, i.t, v.t))
 
     def x_bi_mset2(self, args, kw, st, node):
